@@ -140,6 +140,7 @@ func (c *BindingManager) RemoveBinding(data model.BindingManagementDeleteCallTyp
 	defer c.mux.Unlock()
 
 	for _, item := range c.bindingEntries {
+		verifPoint("RemoveBinding.scan")
 		itemAddress := item.ClientFeature.Address()
 
 		if !reflect.DeepEqual(*itemAddress, clientAddress) ||
@@ -191,6 +192,7 @@ func (c *BindingManager) RemoveBindingsForEntity(remoteEntity api.EntityRemoteIn
 
 	var newBindingEntries []*api.BindingEntry
 	for _, item := range c.bindingEntries {
+		verifPoint("RemoveBindingsForEntity.scan")
 		if item.ClientFeature.Device().Ski() != remoteEntity.Device().Ski() ||
 			!reflect.DeepEqual(item.ClientFeature.Address().Entity, remoteEntity.Address().Entity) {
 			newBindingEntries = append(newBindingEntries, item)
